@@ -166,3 +166,28 @@ impl BufferWindowBuilder {
         }
     }
 }
+
+/// Verification hooks: an offset based view of the pointer API of [`BufferWindow`]
+/// (offsets are relative to the start of the buffer), so that an external
+/// harness can drive the window one operation at a time. Adds no behaviour.
+#[cfg(jomini_verif)]
+pub mod verif_hooks {
+    use super::*;
+
+    /// offset of the end of the window from the start of the buffer
+    pub fn end_offset(w: &BufferWindow) -> usize {
+        unsafe { w.end.offset_from(w.start_buf) as usize }
+    }
+
+    /// `advance_to` with the pointer given as an offset from the start of the buffer
+    pub fn advance_to_offset(w: &mut BufferWindow, offset: usize) {
+        let ptr = w.start_buf.wrapping_add(offset);
+        w.advance_to(ptr)
+    }
+
+    /// `get` with the range given as offsets from the start of the buffer
+    pub fn get_offsets(w: &BufferWindow, from: usize, to: usize) -> Vec<u8> {
+        let range = w.start_buf.wrapping_add(from)..w.start_buf.wrapping_add(to);
+        w.get(range).as_bytes().to_vec()
+    }
+}
